@@ -31,6 +31,7 @@ type Exec struct {
 	extSpecs []*SpecFile
 	contracts map[string]*Contract
 	variants  map[string][]*Contract
+	reachLogMemo map[*ssa.Function][]string
 	ghosts   map[string]*GhostFunc
 
 	checks   []*Check
